@@ -333,10 +333,109 @@ func c10Impl(in []int64) []int64 {
 				return []int64{BADCASE}
 			}
 		}
+		// the same case on rings of other element types (slot sizes 12, 20, 40, 72 bytes, a pointer-holding one): the element
+		// type is a parameter of the property, not of the case; a differing answer is reported in place of the int ring's
+		if kind == 1 && inj < 0 && c <= 1<<16 && !c10HasOp(ops, 10) && (int64(len(ops))+c)%8 == 0 {
+			type e8 struct{ A, B int32 }
+			type e16 struct{ A [4]int32 }
+			type e40 struct {
+				A int64
+				B int32
+				C int64
+				S string
+			}
+			type e64 struct{ A [8]int64 }
+			alts := [][]int64{
+				c10SyncOps(c, ops, func(x int) e8 { return e8{int32(x), ^int32(x)} }, func(v e8) int64 { return int64(v.A) }),
+				c10SyncOps(c, ops, func(x int) e16 { return e16{[4]int32{int32(x), 1, 2, 3}} }, func(v e16) int64 { return int64(v.A[0]) }),
+				c10SyncOps(c, ops, func(x int) e40 { return e40{int64(x), 7, -1, "s"} }, func(v e40) int64 { return v.A }),
+				c10SyncOps(c, ops, func(x int) e64 { return e64{[8]int64{int64(x)}} }, func(v e64) int64 { return v.A[0] }),
+			}
+			for _, alt := range alts {
+				if !equalInts(alt, out) {
+					return alt
+				}
+			}
+		}
 	default:
 		return []int64{BADCASE}
 	}
 	return out
+}
+
+func c10HasOp(ops []int64, code int64) bool {
+	for i := 0; i+1 < len(ops); i += 2 {
+		if ops[i] == code {
+			return true
+		}
+	}
+	return false
+}
+
+func equalInts(a, b []int64) bool {
+	if len(a) != len(b) {
+		return false
+	}
+	for i := range a {
+		if a[i] != b[i] {
+			return false
+		}
+	}
+	return true
+}
+
+// the sequential SyncRing operations of a kind-1 case on a ring of element type T (values travel through mk / val)
+func c10SyncOps[T any](c int64, ops []int64, mk func(int) T, val func(T) int64) (out []int64) {
+	defer func() {
+		if recover() != nil {
+			out = []int64{PANIC}
+		}
+	}()
+	r := ringz.NewSync[T](int(c))
+	for i := 0; i+1 < len(ops); i += 2 {
+		code, a := ops[i], ops[i+1]
+		switch code {
+		case 0:
+			out = append(out, B(r.Push(mk(int(a)))))
+		case 1:
+			v, ok := r.Pop()
+			out = append(out, B(ok), c10Val(ok, v, val))
+		case 3:
+			out = append(out, int64(r.Len()))
+		case 4:
+			out = append(out, B(r.IsEmpty()))
+		case 5:
+			out = append(out, B(r.IsFull()))
+		case 6:
+			out = append(out, int64(r.Cap()))
+		case 9:
+			if !c10AllocGuard(a) {
+				return []int64{BADCASE}
+			}
+			r.Init(int(a))
+		case 11:
+			out = append(out, B(r.PushWait(mk(int(a)), 0)))
+		case 12:
+			v, ok := r.PopWait(0)
+			out = append(out, B(ok), c10Val(ok, v, val))
+		case 13:
+			out = append(out, B(r.PushWait(mk(int(a)), time.Nanosecond)))
+		case 14:
+			v, ok := r.PopWait(time.Nanosecond)
+			out = append(out, B(ok), c10Val(ok, v, val))
+		default:
+			return []int64{BADCASE}
+		}
+	}
+	return out
+}
+
+// a failed Pop returns the zero value of T; the int ring reports 0 for it
+func c10Val[T any](ok bool, v T, val func(T) int64) int64 {
+	if !ok {
+		return 0
+	}
+	return val(v)
 }
 
 var c10Names = []string{"Push", "Pop", "Peek", "Len", "IsEmpty", "IsFull", "Cap", "Recap", "PushWithExpand", "Init", "Dump",
